@@ -3,6 +3,7 @@ package c09
 import (
 	"context"
 	"crypto/sha256"
+	"encoding/json"
 	"fmt"
 	"math"
 	"math/big"
@@ -608,7 +609,13 @@ func (m *m09) Next(t *rapid.T) op09 {
 		return op
 
 	case k >= 96: // restart of the token module from its exported genesis
-		return op09{Kind: "reimport", Who: whoGov}
+		op := op09{Kind: "reimport", Who: whoGov}
+		if len(m.order) > 1 && rapid.IntRange(0, 3).Draw(t, "orphan") == 0 {
+			// the exported file is edited by hand before the import: one token loses its owner (an empty owner passes the
+			// module's validation); from then on nobody is its owner
+			op.Symbol = m.order[1+rapid.IntRange(0, len(m.order)-2).Draw(t, "orphaned")]
+		}
+		return op
 
 	default: // params
 		op := op09{Kind: "params", Who: whoGov}
@@ -1027,8 +1034,33 @@ func (m *m09) Apply(op op09) error {
 	case "reimport":
 		// restart of the token module from its own exported genesis: params, every token record and the burned
 		// totals are carried; the model stays as it is
-		if _, stage, err := c.Reimport(tokentypes.ModuleName); err != nil {
+		if tk := m.bySym[op.Symbol]; op.Symbol != "" && tk != nil && !tk.native && !tk.voucher {
+			c.GenesisEdit = func(_ string, exported json.RawMessage) json.RawMessage {
+				var g map[string]interface{}
+				if json.Unmarshal(exported, &g) != nil {
+					return nil
+				}
+				toks, _ := g["tokens"].([]interface{})
+				for _, x := range toks {
+					if t, ok := x.(map[string]interface{}); ok && t["symbol"] == op.Symbol {
+						t["owner"] = ""
+					}
+				}
+				out, _ := json.Marshal(g)
+				return out
+			}
+		}
+		ei := c.EditedImports
+		_, stage, err := c.Reimport(tokentypes.ModuleName)
+		c.GenesisEdit = nil
+		if err != nil {
 			return pbt.Failf("C09/reimport-"+stage, "token genesis round trip with %d tokens: %v", len(m.order), err)
+		}
+		if c.EditedImports > ei {
+			tk := m.bySym[op.Symbol]
+			tk.oldOwners[tk.owner] = true
+			tk.owner = ""
+			m.cls["token-left-without-owner-by-an-edited-genesis"] = true
 		}
 		if got := chain.Diff(before, c.Snapshot()); !got.Empty() {
 			return pbt.Failf("C09/reimport-moved-coins", "genesis round trip changed balances: %s", got)
